@@ -59,7 +59,7 @@ def plot_diagrams (cast : α → α) (infv : α) (ax : Axes) (fig : SFig α) (di
   let has_inf : Bool := anyIsinf concat_dgms
   let finite_dgms : List α := selectFinite concat_dgms
   match (
-      match xy_range with
+      match truthyVal xy_range with
       | none => (
           match npMin finite_dgms with
           | none => .error Err.value
@@ -367,8 +367,9 @@ def plot_landscape_exact_simple_round (ax_1 : Axes) (depth_range_1 : List Nat) (
 def plot_landscape_exact_simple (ax : Axes) (fig : SFig α) (landscape : LandExact α) (title : Option String) (labels : Option (List String)) (depth_range : Option (List Nat)) :
     Except Err (SFig α) :=
   let ax_1 : Axes := ax
-  let depth_range_1 : List Nat := rangeOr depth_range (landscape.max_depth + 1)
-  match (pyEnumerate landscape.depths).foldlM (plot_landscape_exact_simple_round ax_1 depth_range_1) fig with
+  let landscape_1 : LandExact α := landscape.compute_landscape
+  let depth_range_1 : List Nat := rangeOr depth_range (landscape_1.max_depth + 1)
+  match (pyEnumerate landscape_1.depths).foldlM (plot_landscape_exact_simple_round ax_1 depth_range_1) fig with
   | .error e => .error e
   | .ok fig_1 =>
   let fig_2 : SFig α := fig_1.set_legend ax_1 ⟨[], []⟩
@@ -392,13 +393,13 @@ def plot_landscape_exact_simple (ax : Axes) (fig : SFig α) (landscape : LandExa
     .ok fig_4
 
 /-- one round of `for depth, l in enumerate(landscape)` (the names its body only reads, what it re-assigns, the item) -/
-def plot_landscape_approx_simple_round (natCast : Nat → α) (ax_1 : Axes) (landscape : LandApprox α) (depth_range_1 : List Nat) (fig_1 : SFig α) (it : Nat × (List α)) : Except Err (SFig α) :=
+def plot_landscape_approx_simple_round (natCast : Nat → α) (ax_1 : Axes) (landscape_1 : LandApprox α) (depth_range_1 : List Nat) (fig_1 : SFig α) (it : Nat × (List α)) : Except Err (SFig α) :=
   let depth : Nat := it.1
   let l : List α := it.2
   if !(depth_range_1.contains depth) then
     .ok fig_1
   else
-    let domain : List α := linspace natCast landscape.start landscape.stop l.length
+    let domain : List α := linspace natCast landscape_1.start landscape_1.stop l.length
     let fig_2 : SFig α := fig_1.add (SArtist.line ax_1 domain l ⟨[], [("alpha", .param "alpha")]⟩ (some (lamLabel depth)))
     .ok fig_2
 
@@ -406,8 +407,9 @@ def plot_landscape_approx_simple_round (natCast : Nat → α) (ax_1 : Axes) (lan
 def plot_landscape_approx_simple (natCast : Nat → α) (ax : Axes) (fig : SFig α) (landscape : LandApprox α) (title : Option String) (labels : Option (List String)) (depth_range : Option (List Nat)) :
     Except Err (SFig α) :=
   let ax_1 : Axes := ax
-  let depth_range_1 : List Nat := rangeOr depth_range (landscape.max_depth + 1)
-  match (pyEnumerate landscape.depths).foldlM (plot_landscape_approx_simple_round natCast ax_1 landscape depth_range_1) fig with
+  let landscape_1 : LandApprox α := landscape.compute_landscape
+  let depth_range_1 : List Nat := rangeOr depth_range (landscape_1.max_depth + 1)
+  match (pyEnumerate landscape_1.depths).foldlM (plot_landscape_approx_simple_round natCast ax_1 landscape_1 depth_range_1) fig with
   | .error e => .error e
   | .ok fig_1 =>
   let fig_2 : SFig α := fig_1.set_legend ax_1 ⟨[], []⟩
@@ -510,7 +512,7 @@ variable {α : Type} [Add α] [Sub α] [Mul α] [Div α] [Neg α] [Zero α] [OfN
 
 /-- the range block of `plot_diagrams` is the model's `rangeOf` -/
 theorem range_eq (xy_range : Option (α × α × α × α)) (finite_dgms : List α) :
-    (match xy_range with
+    (match truthyVal xy_range with
       | none => (
           match npMin finite_dgms with
           | none => .error Err.value
@@ -641,7 +643,7 @@ def rangeRef (cast : α → α) (xy_range : Option (α × α × α × α)) (diag
   let has_inf : Bool := anyIsinf concat_dgms
   let finite_dgms : List α := selectFinite concat_dgms
   match (
-      match xy_range with
+      match truthyVal xy_range with
       | none => (
           match npMin finite_dgms with
           | none => .error Err.value
@@ -1187,14 +1189,48 @@ theorem land_tail (f : SFig α) (title : Option String) (labels : Option (List S
       | [], h2 => simp at h2
     simp [SFig.landAfter, SFig.set_legend, SFig.set_title, SFig.set_xlabel, SFig.set_ylabel, ht, hl, hs]
 
+/-! `compute_landscape`, the state transformer: what it leaves alone, what it stores for a landscape built with `compute=False` -/
+
+theorem LandApprox.compute_landscape_start (L : LandApprox α) : L.compute_landscape.start = L.start := by
+  unfold LandApprox.compute_landscape; split <;> rfl
+
+theorem LandApprox.compute_landscape_stop (L : LandApprox α) : L.compute_landscape.stop = L.stop := by
+  unfold LandApprox.compute_landscape; split <;> rfl
+
+theorem LandExact.compute_landscape_lazy (L : LandExact α) (h : L.depths = []) :
+    L.compute_landscape = { L with depths := L.fromDgms, max_depth := (L.fromDgms.length : Int) } := by
+  unfold LandExact.compute_landscape; simp [h]
+
+theorem LandApprox.compute_landscape_lazy (L : LandApprox α) (h : (L.depths.all (·.isEmpty)) = true) :
+    L.compute_landscape = { L with depths := L.fromDgms, max_depth := (L.fromDgms.length : Int) } := by
+  unfold LandApprox.compute_landscape; simp only [h, if_true]
+
+/-- a stored landscape is left as it is (`if self.critical_pairs: return`) -/
+theorem LandExact.compute_landscape_stored (L : LandExact α) (h : L.depths ≠ []) : L.compute_landscape = L := by
+  unfold LandExact.compute_landscape
+  cases hd : L.depths with
+  | nil => exact absurd hd h
+  | cons _ _ => simp
+
+/-- computing twice is computing once (`__getitem__` calls `compute_landscape()` again on every access) -/
+theorem LandExact.compute_landscape_idem (L : LandExact α) : L.compute_landscape.compute_landscape = L.compute_landscape := by
+  unfold LandExact.compute_landscape
+  cases hd : L.depths with
+  | nil =>
+    simp only [List.isEmpty_nil, if_true]
+    cases hf : L.fromDgms <;> simp
+  | cons _ _ => simp [hd]
+
 /-- **`plot_landscape_exact_simple`** -/
 theorem plot_landscape_exact_simple_eq_model (fig : SFig α) (L : LandExact α) (title : Option String) (labels : Option (List String))
-    (dr : Option (List Nat)) (hmax : L.depths.length ≤ (L.max_depth + 1).toNat)
+    (dr : Option (List Nat)) (hmax : L.compute_landscape.depths.length ≤ (L.compute_landscape.max_depth + 1).toNat)
     (hlab : truthy labels = true → 2 ≤ (seqOf labels).length) :
     Ref.plot_landscape_exact_simple Axes.given fig L title labels dr =
-      .ok ((fig.afterArtists (landscapeExactSimple L.depths dr)).landAfter title labels) := by
+      .ok ((fig.afterArtists (landscapeExactSimple L.compute_landscape.depths dr)).landAfter title labels) := by
   unfold Ref.plot_landscape_exact_simple
   simp only []
+  -- everything after `landscape.compute_landscape()` reads the COMPUTED object
+  generalize L.compute_landscape = L at hmax ⊢
   rw [fold_lines (fun d => (rangeOr dr (L.max_depth + 1)).contains d)
     (fun it => SArtist.line Axes.given (pairsCol0 it.2) (pairsCol1 it.2) ⟨[], [("alpha", .param "alpha")]⟩ (some (lamLabel it.1)))
     (Ref.plot_landscape_exact_simple_round Axes.given (rangeOr dr (L.max_depth + 1))) (fun fig it => rfl)]
@@ -1210,12 +1246,15 @@ theorem plot_landscape_exact_simple_eq_model (fig : SFig α) (L : LandExact α) 
 
 /-- **`plot_landscape_approx_simple`** -/
 theorem plot_landscape_approx_simple_eq_model (natCast : Nat → α) (fig : SFig α) (L : LandApprox α) (title : Option String)
-    (labels : Option (List String)) (dr : Option (List Nat)) (hmax : L.depths.length ≤ (L.max_depth + 1).toNat)
+    (labels : Option (List String)) (dr : Option (List Nat))
+    (hmax : L.compute_landscape.depths.length ≤ (L.compute_landscape.max_depth + 1).toNat)
     (hlab : truthy labels = true → 2 ≤ (seqOf labels).length) :
     Ref.plot_landscape_approx_simple natCast Axes.given fig L title labels dr =
-      .ok ((fig.afterArtists (landscapeApproxSimple natCast L.start L.stop L.depths dr)).landAfter title labels) := by
+      .ok ((fig.afterArtists (landscapeApproxSimple natCast L.start L.stop L.compute_landscape.depths dr)).landAfter title labels) := by
   unfold Ref.plot_landscape_approx_simple
   simp only []
+  rw [← LandApprox.compute_landscape_start L, ← LandApprox.compute_landscape_stop L]
+  generalize L.compute_landscape = L at hmax ⊢
   rw [fold_lines (fun d => (rangeOr dr (L.max_depth + 1)).contains d)
     (fun it => SArtist.line Axes.given (linspace natCast L.start L.stop it.2.length) it.2 ⟨[], [("alpha", .param "alpha")]⟩
       (some (lamLabel it.1)))
@@ -1230,6 +1269,24 @@ theorem plot_landscape_approx_simple_eq_model (natCast : Nat → α) (fig : SFig
     rfl
   rw [hart]
   exact land_tail _ title labels hlab
+
+/-- a landscape built with `compute=False`: the lines of what `compute_landscape()` computes; `max_depth` is set by the method -/
+theorem plot_landscape_exact_simple_lazy (fig : SFig α) (L : LandExact α) (title : Option String) (labels : Option (List String))
+    (dr : Option (List Nat)) (hlazy : L.depths = []) (hlab : truthy labels = true → 2 ≤ (seqOf labels).length) :
+    Ref.plot_landscape_exact_simple Axes.given fig L title labels dr =
+      .ok ((fig.afterArtists (landscapeExactSimple L.fromDgms dr)).landAfter title labels) := by
+  have h := plot_landscape_exact_simple_eq_model fig L title labels dr
+    (by rw [LandExact.compute_landscape_lazy L hlazy]; simp only []; omega) hlab
+  rw [h, LandExact.compute_landscape_lazy L hlazy]
+
+theorem plot_landscape_approx_simple_lazy (natCast : Nat → α) (fig : SFig α) (L : LandApprox α) (title : Option String)
+    (labels : Option (List String)) (dr : Option (List Nat)) (hlazy : (L.depths.all (·.isEmpty)) = true)
+    (hlab : truthy labels = true → 2 ≤ (seqOf labels).length) :
+    Ref.plot_landscape_approx_simple natCast Axes.given fig L title labels dr =
+      .ok ((fig.afterArtists (landscapeApproxSimple natCast L.start L.stop L.fromDgms dr)).landAfter title labels) := by
+  have h := plot_landscape_approx_simple_eq_model natCast fig L title labels dr
+    (by rw [LandApprox.compute_landscape_lazy L hlazy]; simp only []; omega) hlab
+  rw [h, LandApprox.compute_landscape_lazy L hlazy]
 
 /-- fewer than two axis labels: `labels[0]` / `labels[1]` raises `IndexError` -/
 theorem land_tail_index (f : SFig α) (title : Option String) (labels : Option (List String))
@@ -1254,6 +1311,7 @@ theorem plot_landscape_exact_simple_index (fig : SFig α) (L : LandExact α) (ti
     Ref.plot_landscape_exact_simple Axes.given fig L title labels dr = .error Err.index := by
   unfold Ref.plot_landscape_exact_simple
   simp only []
+  generalize L.compute_landscape = L
   rw [fold_lines (fun d => (rangeOr dr (L.max_depth + 1)).contains d)
     (fun it => SArtist.line Axes.given (pairsCol0 it.2) (pairsCol1 it.2) ⟨[], [("alpha", .param "alpha")]⟩ (some (lamLabel it.1)))
     (Ref.plot_landscape_exact_simple_round Axes.given (rangeOr dr (L.max_depth + 1))) (fun fig it => rfl)]
@@ -1264,6 +1322,7 @@ theorem plot_landscape_approx_simple_index (natCast : Nat → α) (fig : SFig α
     Ref.plot_landscape_approx_simple natCast Axes.given fig L title labels dr = .error Err.index := by
   unfold Ref.plot_landscape_approx_simple
   simp only []
+  generalize L.compute_landscape = L
   rw [fold_lines (fun d => (rangeOr dr (L.max_depth + 1)).contains d)
     (fun it => SArtist.line Axes.given (linspace natCast L.start L.stop it.2.length) it.2 ⟨[], [("alpha", .param "alpha")]⟩
       (some (lamLabel it.1)))
